@@ -61,7 +61,7 @@ fn main() {
         match wl.as_str() {
             // upper-layer workloads observe the API; chmux hook events would only bloat their traces
             "rwlock" => install_hook_sink_for(&["rw_"]),
-            "robs_script" | "bcast" | "watch" | "typed_base" | "typed_mpsc" | "rtc" | "rtc_once" | "rfn" | "robs_chain" | "robs_err" | "robs_list" | "io" | "wiring" | "handle" | "lazy" | "stream_hostile" => {}
+            "robs_script" | "bcast" | "watch" | "typed_base" | "typed_mpsc" | "rtc" | "rtc_once" | "rfn" | "robs_chain" | "robs_err" | "robs_list" | "io" | "wiring" | "handle" | "lazy" | "stream_hostile" | "bcast_threads" => {}
             _ => install_hook_sink(),
         }
         match wl.as_str() {
@@ -102,6 +102,7 @@ fn main() {
                     max_ports: 4,
                     calm: true,
                     timeout_ms: get("timeout_ms", 2000),
+                    bp: get("bp", 0) != 0,
                     ..Default::default()
                 };
                 let (fa, fb) = rt.block_on(chmux_life::scenario(s, &base));
@@ -147,6 +148,9 @@ fn main() {
             "robs_chain" => {
                 rt.block_on(robs::chain_scenario(s, get("coll", 4)));
             }
+            "bcast_threads" => {
+                rt.block_on(bcast_watch::broadcast_threads(s));
+            }
             "stream_hostile" => {
                 rt.block_on(chmux_misc::stream_hostile(s));
             }
@@ -177,13 +181,13 @@ fn main() {
                 rt.block_on(typed::mpsc_scenario(s, get("cut", 0) != 0, get("flood", 0) != 0));
             }
             "bcast" => {
-                rt.block_on(bcast_watch::broadcast_scenario(s, get("remote", 1) != 0, get("cut", 0) != 0));
+                rt.block_on(bcast_watch::broadcast_scenario(s, get("remote", 1) != 0, get("cut", 0) != 0, get("calm", 0) != 0));
             }
             "watch" => {
                 rt.block_on(bcast_watch::watch_scenario(s, get("hops", 1), get("cut", 0) != 0));
             }
             "rwlock" => {
-                let o = rwlock::RwOpts { remote: get("remote", 1) != 0, cancel: get("cancel", 1) != 0, cut: get("cut", 0) != 0, defer: get("defer", 1) };
+                let o = rwlock::RwOpts { remote: get("remote", 1) != 0, cancel: get("cancel", 1) != 0, cut: get("cut", 0) != 0, defer: get("defer", 1), cut_commit: get("cut_commit", 0) != 0 };
                 rt.block_on(rwlock::scenario(s, &o));
             }
             "robs_script" => {
@@ -240,7 +244,7 @@ fn main() {
                 rt.block_on(chmux_peer::scenario(s, get("hostile", 1) != 0));
             }
             "ret_cancel" => {
-                rt.block_on(chmux_misc::ret_cancel(s));
+                rt.block_on(chmux_misc::ret_cancel(s, get("die", 0) != 0));
             }
             "acc_cancel" => {
                 rt.block_on(chmux_misc::acc_cancel(s));
